@@ -127,6 +127,14 @@ def sum(xs):
         t += x
     return t
 
+# types: two that are still anonymous when this module is frozen (only a list holds them) and two
+# named here; values of each
+KINDS = [enum("RED", "GREEN", "BLUE"), record(a = int, b = str)]
+Way = enum("UP", "DOWN")
+Rec = record(x = int, y = field(str, "d"))
+a_way = Way("DOWN")
+a_rec = Rec(x = {kk})
+
 LIB = {k}
 "#,
         words = word_list(rng, n),
@@ -189,19 +197,28 @@ def main(x):
     };
     format!(
         r#"
-load("shared{a}", a_f = "f", a_g = "g", a_fib = "fib", a_digest = "digest", a_LIB = "LIB")
+load("shared{a}", a_f = "f", a_g = "g", a_fib = "fib", a_digest = "digest", a_LIB = "LIB", a_KINDS = "KINDS", a_Way = "Way", a_Rec = "Rec", a_way = "a_way", a_rec = "a_rec")
 load("shared{b}", b_data = "data", b_table = "table", b_pairs = "pairs", b_add_k = "add_k", b_LIB = "LIB")
 TAG = "{tag}"
+# the shared anonymous types bound to names of this module, and what can be seen of all the types
+Col_{ident} = a_KINDS[0]
+Pair_{ident} = a_KINDS[1]
+def typed_{ident}(c, w: a_Way = a_way) -> a_Rec:
+    return a_Rec(x = c.index, y = w.value)
+types_seen = [repr(Col_{ident}("GREEN")), str(Col_{ident}), str(Pair_{ident}), repr(a_Way("UP")), str(a_Way),
+              repr(a_Rec(x = 2)), repr(a_rec), repr(a_way), repr(typed_{ident}(Col_{ident}("BLUE"))), Col_{ident}.values(), [repr(v) for v in Col_{ident}],
+              isinstance(a_way, a_Way), isinstance(a_rec, a_Rec)]
 K = {k}
 words = {words}
 tbl = {{w: len(w) * K for w in words}}
 {body}
 data = [main(j) for j in range(2)]
-repr((TAG, data))
+repr((TAG, data, types_seen))
 "#,
         a = a,
         b = b,
         tag = tag,
+        ident = tag.chars().map(|c| if c.is_ascii_alphanumeric() { c } else { '_' }).collect::<String>(),
         k = k,
         words = word_list(rng, n),
         body = body
@@ -333,7 +350,7 @@ fn workload(
 ) -> ThreadResult {
     let mut rng = Rng(cfg.seed.wrapping_mul(0x9E3779B97F4A7C15) ^ (i + 1).wrapping_mul(0xD1B54A32D192ED03));
     let mut sched = Rng(cfg.seed ^ 0xABCDEF ^ (i << 32)); // scheduling noise only
-    let globals = Globals::standard();
+    let globals = workload_globals();
     let loader = SharedLoader(shared.to_vec());
     let mut res = ThreadResult { transcript: Vec::new(), observed: BTreeMap::new(), nsent: 0 };
     let mut own: Vec<(u64, FrozenModule)> = Vec::new();
@@ -454,8 +471,13 @@ fn workload(
     res
 }
 
+fn workload_globals() -> Globals {
+    use starlark::environment::LibraryExtension as L;
+    Globals::extended_by(&[L::RecordType, L::EnumType, L::Typing])
+}
+
 fn build_shared(cfg: &Cfg) -> Result<Vec<FrozenModule>, String> {
-    let globals = Globals::standard();
+    let globals = workload_globals();
     let mut out = Vec::new();
     for k in 0..cfg.nshared {
         let mut rng = Rng(cfg.seed ^ (0x5151 + k));
@@ -532,7 +554,10 @@ fn work(args: &[String]) -> anyhow::Result<()> {
     // sequential reference: each workload alone, on a thread of its own, one after the other
     let mut reference: Vec<ThreadResult> = Vec::new();
     for i in 0..cfg.threads {
-        let (c, s) = (cfg.clone(), shared.clone());
+        // a PRIVATE, pristine copy of the shared modules: what this workload sees "running alone" must
+        // not depend on what an earlier reference run left behind in shared frozen values
+        let private = build_shared(&cfg).map_err(|e| anyhow::anyhow!("shared modules: {}", e))?;
+        let (c, s) = (cfg.clone(), private);
         let br = barrier_rounds.clone();
         let r = std::thread::spawn(move || util::catch(|| workload(i, &c, &s, &br, None)))
             .join()
